@@ -9,7 +9,6 @@ import numpy as np
 from harness.common import frac, err_kind, deep_compare
 
 PID = "C44"
-DISABLED = True  # while developing
 THEOREMS = [
     "PorepyVerif.C44.halfplane_is_left_of_edge",
     "PorepyVerif.C44.clip_convex_exact",
@@ -29,7 +28,7 @@ THEOREMS = [
 LEAN_MODULES = ["PorepyVerif.C44.Props"]
 AUDIT = "PorepyVerif/C44/Audit.lean"
 DRIVER = "PorepyVerif/C44/Driver.lean"
-N = {"quick": 260, "thorough": 5000}
+N = {"quick": 260, "thorough": 6000}
 TOL = 1e-9
 RULE = ("70% `lines` cases: a simple polygon with integer (sometimes one dyadic) coordinates — convex hull of random points, "
         "star-shaped, or an integer affine image of an L/U/comb/dart/spike/V-notch/Z template, either orientation, random start vertex, "
@@ -37,7 +36,7 @@ RULE = ("70% `lines` cases: a simple polygon with integer (sometimes one dyadic)
         "partly), through one vertex, end point(s) on the boundary, extended chords through notches, axis-parallel through the "
         "bounding box, zero length, far outside.  30% `p3d` cases: a convex polyhedron (box, tetrahedron, prism, pyramid, octahedron, "
         "parallelepiped, some integer-sheared) and 1-3 convex planar polygons (axis-parallel or oblique plane, through polyhedron "
-        "vertices / edge midpoints, fully inside / outside, with edges in face planes; 4% in the plane of a face = documented "
+        "vertices / edge midpoints, fully inside / outside, with edges in face planes; about 3% in the plane of a face = documented "
         "unsupported input, soundness only).  non-trivial = a lines case with at least one segment that is properly cut (neither "
         "untouched nor removed) or a p3d case whose exact clipped area is positive and smaller than the polygon; distinct = distinct inputs")
 TRUSTED = [
@@ -550,7 +549,11 @@ def gen_case(rng, tier):
     faces, fam = gen_polyhedron(rng)
     polys, kinds = [], []
     for _ in range(rng.choice([1, 1, 1, 2, 3])):
-        p, kind = gen_polygon3d(rng, faces)
+        for _attempt in range(6):
+            p, kind = gen_polygon3d(rng, faces)
+            # polygons in the plane of a face are unsupported input: keep only a few of them
+            if "coplanar" not in flags3(faces, p) or rng.random() < 0.15:
+                break
         polys.append([_s2(v) for v in p])
         kinds.append(kind)
     return {"kind": "p3d", "fam": fam, "faces": [[_s2(v) for v in f] for f in faces], "polygons": polys, "poly_kinds": kinds}
